@@ -500,7 +500,7 @@ class TopoART(BaseART):
             )
             T = np.array(T_values)
             while any(~np.isnan(T)):
-                c_ = int(np.nanargmax(T))
+                c_ = self._next_candidate(T)
                 w = self.W[c_]
                 cache = T_cache[c_]
                 m, cache = self.match_criterion_bin(
